@@ -216,6 +216,7 @@ def run_chunk(binary, run, seed, lo, hi, outbase, res, prop, env_extra=None):
     timeout = run.get("timeout", 900)
     attempt = 0
     cur = lo
+    ended_by_monitor = 0
     while cur < hi:
         out = "%s.%d" % (outbase, attempt)
         attempt += 1
@@ -257,6 +258,13 @@ def run_chunk(binary, run, seed, lo, hi, outbase, res, prop, env_extra=None):
             with res.lock:
                 res.add_cnt("runner/cases_ended_by_spin_monitor", 1)
             cur = failed_case + 1
+            ended_by_monitor += 1
+            if ended_by_monitor >= 3:
+                # the verdict is in; a tree on which every case ends like this would otherwise cost (cases x the
+                # monitor's patience) - the rest of this chunk is not run
+                with res.lock:
+                    res.add_cnt("runner/chunks_cut_short_after_3_monitor_exits", 1)
+                return
             continue
         if timed_out:
             # re-run the single case once; a reproducible hang is a verdict, a one-off is not
